@@ -497,9 +497,11 @@ func init() {
 		m := getModel()
 		defer putModel(m)
 		rng := newRand(17)
+		phase(0.8)
 		for i := 0; i < tierN(900, 30000) && !expired(); i++ {
 			c17Case(r, m, rng, i, i%3 == 2)
 		}
+		phase(1)
 		for i := 0; i < tierN(120, 3000) && !expired(); i++ {
 			c17Registry(r, rng, i)
 		}
